@@ -804,7 +804,7 @@ def main(rep: Report, replay: dict | None) -> None:
                 or (kind == "random" and (not quick or i % 3 == 0))
                 or (any(o[0][0] == "ok" for o in per_string[i])
                     and not (quick and (kind == "random" or kind == "style-suffix" and s[:1] != "+")))
-                or (s[:1] == "+" and len(s) <= (4 if quick else 5))
+                or (kind == "style-suffix" and s[:1] == "+" and len(s) <= (4 if quick else 5))
             ]
             del per_string
             strings = list(strings)
